@@ -266,10 +266,56 @@ def gen_qucc():
     return out
 
 
+# ---------------------------------------------------------------------------------- VQE.run, expectation_secondary_ops
+def gen_run():
+    """VQE.run: the energy function handed to the optimiser measures the operator object it was PASSED, in the state
+    ansatz.as_matrix(params) @ initial_state (attributes read at call time); the only store into the instance is
+    _optimal_params; the result is the optimiser's own result object.  Anything else (e.g. a matrix kept on the instance)
+    is refused."""
+    cls = find_class(parse(F_VQE), "VQE")
+    fn = find_func(cls, "run")
+    if [a.arg for a in fn.args.args] != ["self", "pauli_op"] or fn.args.vararg or fn.args.kwarg:
+        raise Unsupported("VQE.run: unexpected parameters")
+    body = body_nodoc(fn)
+    if len(body) != 4:
+        raise Unsupported("VQE.run: expected energy_func, minimize, _optimal_params, return (got %d statements: %s)"
+                          % (len(body), "; ".join(up(b).split("\n")[0][:50] for b in body)))
+    ef, mn, st, rt = body
+    if not (isinstance(ef, ast.FunctionDef) and ef.name == "energy_func" and [a.arg for a in ef.args.args] == ["params"]):
+        raise Unsupported("VQE.run: expected def energy_func(params)")
+    eb = [up(x) for x in body_nodoc(ef)]
+    want = ["state = self.ansatz.as_matrix(params).toarray() @ self.initial_state",
+            "energy = measure_expectation_statevector(pauli_op, state)"]
+    if eb[:2] != want or len(eb) != 3 or eb[2] not in ("return energy", "return np.real(energy)", "return energy.real"):
+        raise Unsupported("VQE.run.energy_func: unexpected body: %s" % " | ".join(eb)[:200])
+    v = mn.value if isinstance(mn, ast.Assign) and up(mn.targets[0]) == "res" else None
+    if not (isinstance(v, ast.Call) and up(v.func) == "minimize" and not v.args):
+        raise Unsupported("VQE.run: expected res = minimize(...)")
+    kw = {k.arg: up(k.value) for k in v.keywords}
+    if kw.get("fun") != "energy_func" or kw.get("x0") != "self.optimizer.x0":
+        raise Unsupported("VQE.run: minimize is not called with fun=energy_func, x0=self.optimizer.x0")
+    for k, val in kw.items():
+        if k not in ("fun", "x0") and val != "self.optimizer." + k:
+            raise Unsupported("VQE.run: minimize argument %s=%s" % (k, val))
+    if up(st) != "self._optimal_params = res.x" or up(rt) != "return res":
+        raise Unsupported("VQE.run: expected self._optimal_params = res.x; return res")
+    fn2 = find_func(cls, "expectation_secondary_ops")
+    b2 = body_nodoc(fn2)
+    want2 = ("if self._optimal_params is None:\n    return None\nelse:\n"
+             "    state = self.ansatz.as_matrix(self._optimal_params).toarray() @ self.initial_state\n"
+             "    return [measure_expectation_statevector(s_op, state) for s_op in secondary_ops]")
+    if len(b2) != 1 or up(b2[0]) != want2:
+        raise Unsupported("VQE.expectation_secondary_ops: unexpected body")
+    return ("(* VQE.run: energy_func measures the operator object passed to run() in the state ansatz.as_matrix(params) @ initial_state;\n"
+            "   stores only _optimal_params; returns the optimiser's result object *)\n"
+            "Definition gen_run : run_src := {| rs_op := OpArgument |}.\n"
+            "Definition gen_vqe_getters : getter_kind := GFresh.\n")
+
+
 def generate():
     return ("(* generated by gen/vqe.py from %s and %s -- do not edit *)\n"
-            "From Qib Require Import VQE.VqeModel.\n\n" % (F_VQE, F_ANS)
-            + gen_expect() + "\n" + gen_qucc())
+            "From Qib Require Import VQE.VqeModel VQE.VqeHistModel.\n\n" % (F_VQE, F_ANS)
+            + gen_expect() + "\n" + gen_qucc() + "\n" + gen_run())
 
 
 if __name__ == "__main__":
